@@ -83,6 +83,9 @@ func c32Memory(t *rapid.T) (memory.Memory, map[uint64]byte, string) {
 	n := uniformInt(t, 9, "nStores")
 	for i := 0; i < n; i++ {
 		w := 1 + uniformInt(t, 24, "w")
+		if uniformInt(t, 6, "long") == 0 {
+			w = 25 + uniformInt(t, 100, "wLong") // blocks spanning several rows
+		}
 		off := uniformInt(t, 192-w, "off") // ends at most one byte before base+192
 		switch uniformInt(t, 4, "align") {
 		case 0:
@@ -130,7 +133,7 @@ func c32Memory(t *rapid.T) (memory.Memory, map[uint64]byte, string) {
 func model2addr(a uint64) model.Addr { return model.Addr(a) }
 
 func TestC32(t *testing.T) {
-	col := ev.New("C32", "rapid: memories (Sparse, Bytes, Overlay) holding 0-8 constant stores of 1-24 bytes in a 191-byte "+
+	col := ev.New("C32", "rapid: memories (Sparse, Bytes, Overlay) holding 0-8 constant stores of 1-24 (a sixth: 25-124) bytes in a 191-byte "+
 		"region placed at 0, 0x7ff0, 0x10000 and 2^64-192 (stores starting/ending on 16-byte row boundaries, two blocks in "+
 		"one row, adjacent rows, far rows); the memory view is reached through the real UI (entrypoint, emulate, memory "+
 		"<key>) and rendered; rows are parsed back. Oracle from the byte model: data rows = exactly the 16-byte aligned "+
